@@ -122,6 +122,8 @@ def run_restart(ctx, exe, n, prefixes, seeds=None, timeout=1500, corpus=True):
                     r = m["replay"]
                     cl = classes.get(r.get("reloadLine"), {})
                     sig = "C07:replay:" + cl.get(f"{r.get('db')}.{r.get('key')}", "other")
+                    if str(r.get("corpus", "")).startswith("pass-"):
+                        sig = "C07:regression:" + r["corpus"] + ":" + sig.split(":", 1)[1]
                 seen[sig] = seen.get(sig, 0) + 1
                 if any(sig.startswith(px) for px in prefixes):
                     ctx.add_violation(m["what"], sig, m["replay"])
